@@ -790,6 +790,9 @@ func (envs *Manager) TeardownEnvironment(environmentId uid.ID, force bool) error
 		WorkflowTemplateInfo: env.GetWorkflowInfo(),
 	})
 
+	// hook tasks of every weight have to be released in the end, not only the ones of the last weight
+	allCleanupTaskHooks := make(task.Tasks, 0)
+
 	// we trigger all cleanup hooks, first calls, then tasks immediately after
 	for _, weight := range allWeights {
 		hooksForWeight, ok := hooksMapForDestroy[weight]
@@ -798,6 +801,7 @@ func (envs *Manager) TeardownEnvironment(environmentId uid.ID, force bool) error
 
 			// calls done, we start the task hooks...
 			cleanupTaskHooks := hooksForWeight.FilterTasks()
+			allCleanupTaskHooks = append(allCleanupTaskHooks, cleanupTaskHooks...)
 
 			// ...but only if their parent role is still ACTIVE (i.e. not killed or executor failed)
 			cleanupTaskHooks = cleanupTaskHooks.Filtered(func(t *task.Task) bool {
@@ -816,6 +820,9 @@ func (envs *Manager) TeardownEnvironment(environmentId uid.ID, force bool) error
 			// and then we kill them too
 			taskmanMessage = task.NewEnvironmentMessage(taskop.ReleaseTasks, environmentId, cleanupTaskHooks, nil)
 		}
+	}
+	if len(allCleanupTaskHooks) > 0 {
+		taskmanMessage = task.NewEnvironmentMessage(taskop.ReleaseTasks, environmentId, allCleanupTaskHooks, nil)
 	}
 
 	envs.cancelCallsPendingAwait(env)
